@@ -76,6 +76,10 @@ def limit_combination(ctx, key=MFC, VT_MFC=VT_MFC, ST_MFC=ST_MFC):
                     names[case[0]], names[case[1]],
                     " / ".join(" and ".join(lab[x] for x in g) or "neither" for g in sorted(got)), " and ".join(lab[x] for x in wv)))
         sample["value_sources"] = {"%s/%s" % k: [list(v) for _, v in vs] for k, vs in ps.items()}
+        # both present: the SMALLER one (recognised wrong form: Ord::max on the two limits)
+        rs = fd.ret_slice()["atoms"]
+        if has_method(rs, "core::cmp::Ord::max") and not has_method(rs, "core::cmp::Ord::min"):
+            bad.append("the two limits are combined with max: the larger limit wins and the tighter one is exceeded")
     if bad:
         ctx.bad(o, "; ".join(bad) + " - a limit given only on one side is ignored", sample=sample)
     elif und:
